@@ -22,10 +22,14 @@ func init() {
 		httpIDLeg(r)
 		repoTestsLeg(r, "C01")
 		freeRunLeg(r, "C01", map[string]int{"quick": 300, "thorough": 3000}[r.Tier])
+		if r.Tier == "thorough" {
+			apalacheLeg(r)
+		}
 	})
 	register("C06", "model_checking", func(r *ev.Run) {
 		ctlCampaign(r, "C06")
 		freeRunLeg(r, "C06", map[string]int{"quick": 300, "thorough": 3000}[r.Tier])
+		apalacheLeg(r)
 	})
 }
 
